@@ -28,14 +28,20 @@ fn t0() -> DateTime<Utc> {
     Utc.timestamp_opt(3_000_000, 0).unwrap()
 }
 
+/// length of one model time unit: 1 s by default; VERIF_WIN_UNIT_US sets it in microseconds (e.g. 700 = 0.7 ms, so that window bounds and
+/// event times carry sub-millisecond parts and any comparison done at millisecond resolution shows)
+fn unit_us() -> i64 { std::env::var("VERIF_WIN_UNIT_US").ok().and_then(|s| s.parse().ok()).unwrap_or(1_000_000) }
+fn units(n: i64) -> Duration { Duration::microseconds(n * unit_us()) }
+fn vpl_dur(n: i64) -> String { if unit_us() == 1_000_000 { format!("{n}s") } else { format!("{}us", n * unit_us()) } }
+
 fn mk(cfg: &J) -> W {
     let d = cfg["d"].as_i64().unwrap();
     let s = cfg["s"].as_i64().unwrap();
     match cfg["kind"].as_str().unwrap() {
-        "tumbling" => W::T(TumblingWindow::new(Duration::seconds(d))),
+        "tumbling" => W::T(TumblingWindow::new(units(d))),
         "count" => W::C(CountWindow::new(d as usize)),
-        "session" => W::S(SessionWindow::new(Duration::seconds(d))),
-        "sliding" => W::Sl(SlidingWindow::new(Duration::seconds(d), Duration::seconds(s))),
+        "session" => W::S(SessionWindow::new(units(d))),
+        "sliding" => W::Sl(SlidingWindow::new(units(d), units(s))),
         "slidingcount" => W::Sc(SlidingCountWindow::new(d as usize, s as usize)),
         k => panic!("kind {k}"),
     }
@@ -47,7 +53,7 @@ fn run_struct(cfg: &J, ops: &[J]) -> Vec<J> {
     let mut n = 0i64;
     let mut out = vec![json!({"ev": "reset", "cfg": cfg})];
     for op in ops {
-        let t = t0() + Duration::seconds(op["t"].as_i64().unwrap());
+        let t = t0() + units(op["t"].as_i64().unwrap());
         let r: Option<Vec<SharedEvent>> = if op["op"] == "add" {
             n += 1;
             let mut e = Event::new("A").with_field("id", n);
@@ -84,10 +90,10 @@ fn vpl_window(cfg: &J, part: bool) -> String {
     let d = cfg["d"].as_i64().unwrap();
     let s = cfg["s"].as_i64().unwrap();
     let w = match cfg["kind"].as_str().unwrap() {
-        "tumbling" => format!(".window({d}s)"),
+        "tumbling" => format!(".window({})", vpl_dur(d)),
         "count" => format!(".window({d})"),
-        "session" => format!(".window(session: {d}s)"),
-        "sliding" => format!(".window({d}s, sliding: {s}s)"),
+        "session" => format!(".window(session: {})", vpl_dur(d)),
+        "sliding" => format!(".window({}, sliding: {})", vpl_dur(d), vpl_dur(s)),
         "slidingcount" => format!(".window({d}, sliding: {s})"),
         k => panic!("kind {k}"),
     };
@@ -130,7 +136,7 @@ fn run_engine(rt: &tokio::runtime::Runtime, cfg: &J, streams: &[(&str, &[J], i64
             }
             counters[si] += 1;
             let mut e = Event::new("A").with_field("id", counters[si] + off).with_field("key", *key);
-            e.timestamp = t0() + Duration::seconds(ops[i]["t"].as_i64().unwrap());
+            e.timestamp = t0() + units(ops[i]["t"].as_i64().unwrap());
             match catch(|| rt.block_on(engine.process(e))) {
                 Ok(Ok(())) => {}
                 Ok(Err(e)) => return Err(format!("process: {e}")),
